@@ -203,13 +203,22 @@ type c19Call struct {
 	done  chan struct{}
 }
 
-func (e *c19Env) read(ctx context.Context, nonce string) *c19Call {
+func (e *c19Env) read(ctx context.Context, nonce string) *c19Call { return e.readT(ctx, nonce, 0) }
+
+// readT: timeout 0 = the request timeout of the channel
+func (e *c19Env) readT(ctx context.Context, nonce string, timeout time.Duration) *c19Call {
 	c := &c19Call{nonce: nonce, done: make(chan struct{})}
 	go func() {
 		defer close(c.done)
 		b0 := fw.Heartbeats()
 		req := &ua.ReadRequest{NodesToRead: []*ua.ReadValueID{{NodeID: ua.NewStringNodeID(1, nonce), AttributeID: ua.AttributeIDValue, DataEncoding: &ua.QualifiedName{}}}}
-		c.err = e.sc.SendRequest(ctx, req, nil, func(v ua.Response) error {
+		send := e.sc.SendRequest
+		if timeout > 0 {
+			send = func(ctx context.Context, req ua.Request, tok *ua.NodeID, h uasc.ResponseHandler) error {
+				return e.sc.SendRequestWithTimeout(ctx, req, tok, timeout, h)
+			}
+		}
+		c.err = send(ctx, req, nil, func(v ua.Response) error {
 			if rr, ok := v.(*ua.ReadResponse); ok && len(rr.Results) == 1 && rr.Results[0].Value != nil {
 				c.got, _ = rr.Results[0].Value.Value().(string)
 			}
@@ -440,7 +449,9 @@ func c19One(c *fw.Ctx, cs c19Case) {
 	c.Eval(int64(len(calls) + 1))
 	var fresh []*c19Call
 	for k := 0; k < 10; k++ {
-		fresh = append(fresh, e.read(bg, fmt.Sprintf("ok-fresh-%d", k)))
+		// with a timeout of their own that a loaded machine cannot reach: whether the channel still delivers is judged
+		// on the heartbeat clock below, not by the 100-300 ms of the scenario
+		fresh = append(fresh, e.readT(bg, fmt.Sprintf("ok-fresh-%d", k), 2*time.Minute))
 	}
 	okN := 0
 	for _, call := range fresh {
